@@ -15,16 +15,17 @@ import (
 func init() { register("C04", runC04) }
 
 type c04obs struct {
-	n     int
-	how   string
-	binds micro.Substitutions
-	canon string
+	n      int
+	how    string
+	binds  micro.Substitutions
+	bindsG []gbind
+	canon  string
 }
 
 func runC04(cfg *Config) *Report {
 	rep := newReport()
 	rep.Rule = "pairs of values of the types *GT{A,B *GT; S *string; L []*GT}, *string, []*GT (nil pointers, nil/empty slices, constants equal to a zero-valued placeholder, v an abstraction of u in half the cases) x acyclic start bindings installed with State.Set (var-var chains, partially bound structs) x both placeholder policies (zero-valued default, named via VarCreator) x memory layout (every node fresh / equal sub-values one object and list prefixes re-slices of one backing array); non-trivial = both sides contain a variable or a bound variable is dereferenced; distinct by printed case"
-	cf := newCaseFile("From Coq Require Import List NArith ZArith.\nFrom GMK Require Import Term Unify CorrBase Corr01 Corr02 Corr04.", "case04", "check04")
+	cf := newCaseFile("From Coq Require Import List NArith ZArith.\nFrom GMK Require Import Term Unify Reflect GCore CorrBase Corr01 Corr02 Corr04.", "case04", "check04")
 	r := newRand(cfg.Seed)
 	for i := 0; i < cfg.N; i++ {
 		nv := 1 + r.Intn(6)
@@ -103,6 +104,7 @@ func runC04(cfg *Config) *Report {
 			o := c04obs{n: len(states), how: how}
 			if len(states) >= 1 {
 				o.binds = w.bindings(states[0])
+				o.bindsG = w.bindingsG(states[0])
 				vs := make([]uint64, nv)
 				for k := range vs {
 					vs[k] = uint64(k)
@@ -117,7 +119,12 @@ func runC04(cfg *Config) *Report {
 		o := obs[0]
 		obsStr := fmt.Sprintf("zero-valued placeholders: %d state(s) %s %s; named placeholders: %d state(s) %s %s", obs[0].n, obs[0].how, showSubst(obs[0].binds), obs[1].n, obs[1].how, showSubst(obs[1].binds))
 		// the case file records the default policy; the named policy must agree (oracle below)
-		cf.add(fmt.Sprintf("CGUnify %s %s %s %d %s", encTerm(u.toTerm()), encTerm(v.toTerm()), encSubst(start), o.n, encSubst(o.binds)))
+		startG := make([]gbind, len(binds))
+		for k, b := range binds {
+			startG[k] = gbind{b.k, b.v}
+		}
+		cf.add(fmt.Sprintf("CGCore %s %s %s %d %s %s %s %s %s", u.coqG(), v.coqG(), coqGSub(startG), o.n, coqGSub(o.bindsG),
+			encTerm(u.toTerm()), encTerm(v.toTerm()), encSubst(start), encSubst(o.binds)))
 		rep.CaseDesc = append(rep.CaseDesc, desc)
 		rep.CaseObs = append(rep.CaseObs, obsStr)
 		rep.sample(desc + " => " + obsStr)
